@@ -16,6 +16,15 @@ class CbFail(Exception):
     pass
 
 
+class WeirdExit(BaseException):
+    """a BaseException that is neither Exception, SystemExit nor KeyboardInterrupt (like asyncio.CancelledError)"""
+
+
+def body_exception(n):
+    """remote bodies fail with different exception classes: all must surface as RemoteError"""
+    return (ValueError, WeirdExit, SystemExit, GeneratorExit, ArithmeticError)[n % 5]("E%d" % n)
+
+
 class Ctl:
     """registry shared with remote_exec bodies running in the same process"""
 
@@ -35,14 +44,14 @@ class Ctl:
         c = self.cmd[channel.id]
         del channel
         if c[0] == "raise":
-            raise ValueError("E%d" % c[1])
+            raise body_exception(c[1])
 
 
 BODY = "import builtins\nbuiltins.__verif_ctl__.body(channel)\n"
 
 
 def err_id(text):
-    m = re.search(r"(?:ValueError: E|CbFail: )(\d+)\s*$", text.strip())
+    m = re.search(r"(?:\w+: E|CbFail: )(\d+)\s*$", text.strip())
     if m:
         return int(m.group(1))
     m = re.fullmatch(r"E(\d+)", text.strip())
@@ -183,6 +192,7 @@ class NetExec:
             if cur is not None and cur is not self.ctl.chan[cid]:
                 self.graveyard.append(self.ctl.chan.pop(cid))
                 self.h["B"].pop(cid, None)
+                self.exec_parked = True  # a body that stays blocked until tear-down: no `cut B` any more (see next_ops)
             del cur
 
     def do(self, op):
@@ -429,6 +439,22 @@ class RandomProgram(NetExec):
             v = v * 100 + self.rng.randrange(0, 50)
         return v
 
+    def can_drop(self, side, cid):
+        """`drop` = the LAST reference goes away: only when nothing else (a queued item, a frame) refers to the channel and its
+        own queue holds no channel objects (their finalisers would cascade).  References held by the gateway's own callback
+        table are NOT a reason to keep the object alive (a callback entry must not pin its channel): they are discounted, so
+        the drop is issued and the model's LAST_MESSAGE is expected."""
+        import sys as _sys
+        ch = self.get_handle(side, cid)
+        if ch is None:
+            return False
+        q = getattr(ch, "_items", None)
+        plain = q is None or all(len(x) == 1 for x in list(getattr(q, "items", [])) if isinstance(x, tuple))
+        pinned = sum(1 for v in list(self.gw[side]._channelfactory._callbacks.values()) if isinstance(v, tuple) for x in v if x is ch)
+        n = _sys.getrefcount(ch) - pinned
+        del ch
+        return n <= 3 and plain
+
     def handles(self, side):
         ids = set(self.h[side])
         if side == "B":
@@ -463,13 +489,7 @@ class RandomProgram(NetExec):
         if choice < 0.85:
             # `drop` = the LAST reference goes away: only when nothing else (a queued item, a frame) refers to it,
             # and its own queue holds no channel objects (their finalisers would cascade)
-            import sys as _sys
-            ch = self.get_handle(side, cid)
-            q = getattr(ch, "_items", None)
-            plain = q is None or all(len(x) == 1 for x in list(getattr(q, "items", [])) if isinstance(x, tuple))
-            n = _sys.getrefcount(ch)
-            del ch
-            if n <= 3 and plain:
+            if self.can_drop(side, cid):
                 return ["drop %s %d" % (side, cid)]
             return ["isclosed %s %d" % (side, cid)]
         if choice < 0.90:
@@ -491,9 +511,31 @@ class RandomProgram(NetExec):
                 return ["send %s %d %d %d" % (side, cid, self.newval(), c2), "deliver " + peer,
                         lambda: ("recv %s %d" % (peer, cid)) if self.get_handle(peer, cid) is not None else None]
             return ["deliver " + side]
-        if choice < 0.975 and w.get("cut", True):
+        if choice < 0.972 and w.get("sendonly", True):
+            # "sendonly" macro (C03/C10): the peer registers a callback and drops its channel object (LAST_MESSAGE),
+            # this side — now send-only — sends, closes (or, for the remote_exec channel itself, ends the body) and asks
+            # isclosed; everything is delivered in between
+            peer = "B" if side == "A" else "A"
+            executing = cid in self.ctl.chan
+            if self.get_handle(peer, cid) is not None and not (executing and side == "A"):
+                def lazy_drop(peer=peer, cid=cid):
+                    return ("drop %s %d" % (peer, cid)) if self.can_drop(peer, cid) else None
+
+                def flush(s):
+                    return lambda: ("deliver " + s) if self.pipe_into(s).frames and not self.gw[s]._channelfactory.finished else None
+                def still(op, s=side, cid=cid):
+                    # only while the handle chosen above is still the live one (an id re-created by a transfer parks it)
+                    return lambda: op if self.get_handle(s, cid) is not None else None
+                end = ([still("finish %d ret" % cid)] if executing else
+                       [still("close %s %d -" % (side, cid)), still("isclosed %s %d" % (side, cid)),
+                        still("send %s %d %d" % (side, cid, self.newval()))])
+                return (["setcb %s %d 1" % (peer, cid), lazy_drop] + [flush(side)] * 4 +
+                        [still("send %s %d %d" % (side, cid, self.newval()))] + end + [flush(peer)] * 4)
+        if choice < 0.985 and w.get("cut", True):
             s2 = r.choice("AB")
-            if s2 == "B" and self.ctl.chan:
+            if s2 == "B" and (self.ctl.chan or getattr(self, "exec_parked", False)):
+                # the op-level `cut` models a connection loss with no body running on that side (a running body keeps
+                # the worker's write side open until the exit ladder ends it: C11's subject)
                 return ["deliver B"]
             return ["cut " + s2]
         return ["deliver " + r.choice("AB")]
